@@ -53,3 +53,15 @@ func VerifOrder[PK any, K comparable, V any](p *ECache[PK, K, V]) []string {
 	}
 	return r
 }
+
+// VerifValues returns the values of the live entries (formatted), in recency order.
+func VerifValues[PK any, K comparable, V any](p *ECache[PK, K, V]) []string {
+	ns, _, _ := iterable.VerifMapDump(p.items)
+	var r []string
+	for _, n := range ns {
+		if n.State == 1 {
+			r = append(r, fmt.Sprint(n.Val.v))
+		}
+	}
+	return r
+}
